@@ -72,6 +72,10 @@ func genScenario(prop string, rng *rand.Rand) *Scenario {
 	switch prop {
 	case "C05", "C06", "C11":
 		closers = 1 + rng.Intn(2)
+	case "C01": // "a write call that returned an error contributes no bytes": errors come from Close arriving meanwhile
+		if rng.Intn(3) == 0 {
+			closers = 1
+		}
 	case "C18":
 		if rng.Intn(2) == 0 {
 			cancellers = 1
@@ -90,6 +94,9 @@ func genScenario(prop string, rng *rand.Rand) *Scenario {
 		if prop == "C07" {
 			closers = 0
 		}
+	}
+	if (prop == "C01" || prop == "C02" || prop == "C06") && !sc.Sync && sc.FailAt == 0 && rng.Intn(4) == 0 {
+		sc.Buffered = []int{4, 16, 4096}[rng.Intn(3)]
 	}
 	sc.NCtx = cancellers
 	nw := 1 + rng.Intn(3)
